@@ -608,6 +608,40 @@ pub fn run(args: &Args) -> i32 {
 			}),
 		}
 	}
+	// funding reorganised away before the channel is ready
+	let mut funding_cases = 0u64;
+	if args.opt("only").is_none() || args.opt("only") == Some("funding-reorg") {
+		let fcs = funding_reorg_cases(tier);
+		let fres = par::map(&fcs, args.threads, |_, c| funding_reorg_case(c));
+		ev.sample(json!(format!("{:?}", fcs[0])), 2);
+		for (c, r) in fcs.iter().zip(fres.into_iter()) {
+			funding_cases += 1;
+			match r {
+				Ok(Ok((problems, cmp))) => {
+					runs += 2;
+					comparisons += cmp;
+					for (oracle, detail) in problems.into_iter().take(2) {
+						violations.push(Violation {
+							property: "C11".into(),
+							oracle: oracle.clone(),
+							identity: format!("{}|{:?}", oracle, c),
+							detail: format!("[funding-reorg {:?}] {}", c, detail),
+							replay: json!({"funding_reorg": format!("{:?}", c)}),
+						});
+					}
+				},
+				Ok(Err(e)) => mc_common::cli::die(&format!("harness problem in funding-reorg case {:?}: {}", c, e)),
+				Err(p) => violations.push(Violation {
+					property: "C11".into(),
+					oracle: "no-panic".into(),
+					identity: format!("no-panic|{:?}", c),
+					detail: format!("[funding-reorg {:?}] panic: {}", c, p),
+					replay: json!({"funding_reorg": format!("{:?}", c)}),
+				}),
+			}
+		}
+	}
+	ev.set("funding_reorg_cases", funding_cases);
 	if comparisons == 0 || (reorgs == 0 && args.opt("only").is_none()) {
 		mc_common::cli::die("vacuity guard: no comparisons / no reorg scripts ran");
 	}
@@ -623,6 +657,157 @@ pub fn run(args: &Args) -> i32 {
 	ev.assume("the chain (blocks and their transactions) is generated once by the reference style and replayed identically for every other style; user operations happen at the same points");
 	ev.assume("comparison tuple: best block of manager and monitors, channel readiness/confirmations, sorted claimable balances, get_relevant_txids of manager and chain monitor, cumulative multiset of ChannelClosed / ChannelReady / SpendableOutputs / PaymentSent / PaymentFailed / PaymentClaimed / HTLCHandlingFailed events; skipping styles are compared every third block");
 	mc_common::findings::conclude("C11", &violations, &mut ev)
+}
+
+// -------------------------------------------------------------------------------------------------
+// Funding confirmation retracted by a shallow reorg *before* the channel is ready.
+//
+// The funding transaction confirms and collects `confs` < 6 confirmations; a reorg of that depth removes it;
+// on the new chain it confirms again `delay` blocks later (or not within the horizon). Every delivery style sees
+// both forks; a twin (block-by-block Listen) sees only the final chain. Once both have been told about the same
+// best chain their conclusions - readiness, confirmations, short channel id, transactions to watch, ChannelReady
+// events - must be equal, and nobody may send channel_ready while the funding has fewer than six confirmations
+// on the chain it was told about.
+
+#[derive(Clone, Debug)]
+pub struct FundingReorgCase {
+	pub style: SyncStyle,
+	pub confs: u32,
+	pub delay: u32,
+	pub reconfirms: bool,
+}
+
+fn mine_salted(w: &mut World, txs: Vec<Transaction>, salt: u32) {
+	let h = w.chain.mine_ordered(txs);
+	let prev = w.chain.blocks[(h - 1) as usize].header.block_hash();
+	let mut hd = w.chain.blocks[h as usize].header;
+	hd.prev_blockhash = prev;
+	hd.nonce += salt;
+	w.chain.blocks[h as usize].header = hd;
+}
+
+fn funding_view(w: &World) -> String {
+	let mut s = String::new();
+	for n in 0..w.nodes.len() {
+		let node = &w.nodes[n];
+		let bb = node.cm.current_best_block();
+		let mut chans: Vec<String> = node
+			.cm
+			.list_channels()
+			.iter()
+			.map(|c| format!("ready={} usable={} conf={:?} scid={:?}", c.is_channel_ready, c.is_usable, c.confirmations, c.short_channel_id))
+			.collect();
+		chans.sort();
+		let mut r1: Vec<String> = node.cm.get_relevant_txids().iter().map(|(t, h, b)| format!("{}@{}:{:?}", &t.to_string()[..8], h, b.map(|x| x.to_string()[..6].to_string()))).collect();
+		r1.sort();
+		s.push_str(&format!("n{} best={}@{} chans={:?} rel_cm={:?};", n, bb.height, &bb.block_hash.to_string()[..8], chans, r1));
+	}
+	s
+}
+
+/// Runs the opening up to the funding broadcast; returns the funding transaction.
+fn open_until_broadcast(w: &mut World) -> Result<Transaction, String> {
+	w.connect(0, 1);
+	let bid = w.nodes[1].id;
+	w.nodes[0].cm.create_channel(bid, 1_000_000, 400_000_000, 42, None, None).map_err(|e| format!("{:?}", e))?;
+	w.pump();
+	if !w.run_to_quiescence(200) {
+		return Err("open did not quiesce".into());
+	}
+	w.funding_txs.last().cloned().ok_or_else(|| "no funding tx".to_string())
+}
+
+fn step_sync(w: &mut World, ftxid: bitcoin::Txid, ready_events: &mut u32, problems: &mut Vec<(String, String)>, what: &str) {
+	let before = w.obs.len();
+	w.sync_all();
+	w.pump();
+	w.run_to_quiescence(300);
+	let confs = match w.chain.confirmed.get(&ftxid) {
+		Some(h) => w.chain.height() + 1 - *h,
+		None => 0,
+	};
+	for o in w.obs[before..].iter() {
+		match o {
+			Obs::Sent { from, wire: crate::world::Wire::ChannelReady(_), .. } if confs < 6 => {
+				problems.push((
+					"channel-ready-before-funding-depth".to_string(),
+					format!("{}: node {} sent channel_ready while the funding transaction has {} confirmations on the best chain it was told about", what, from, confs),
+				));
+			},
+			Obs::Event { ev: Event::ChannelReady { .. }, .. } => *ready_events += 1,
+			_ => {},
+		}
+	}
+}
+
+pub fn funding_reorg_case(c: &FundingReorgCase) -> Result<(Vec<(String, String)>, u64), String> {
+	let mut problems = Vec::new();
+	let mut comparisons = 0u64;
+	// ---- the world that sees both forks
+	let mut w = World::new(vec![user_config(Ct::Static), user_config(Ct::Static)], 253);
+	w.style = c.style;
+	let ftx = open_until_broadcast(&mut w)?;
+	let ftxid = ftx.compute_txid();
+	let mut ready_a = 0u32;
+	w.chain.mine(vec![ftx.clone()], true).map_err(|e| format!("{:?}", e))?;
+	w.mine_empty(c.confs - 1);
+	step_sync(&mut w, ftxid, &mut ready_a, &mut problems, "first fork");
+	for _ in 0..c.confs {
+		let b = w.chain.disconnect_tip();
+		w.stale_blocks.insert(b.header.block_hash(), b.txdata.clone());
+	}
+	// ---- the twin never sees the first fork
+	let mut t = World::new(vec![user_config(Ct::Static), user_config(Ct::Static)], 253);
+	let ftx_t = open_until_broadcast(&mut t)?;
+	if ftx_t.compute_txid() != ftxid {
+		return Err("twin built a different funding transaction".into());
+	}
+	let mut ready_t = 0u32;
+	let horizon = c.delay + 9;
+	for i in 0..horizon {
+		let txs = if c.reconfirms && i == c.delay { vec![ftx.clone()] } else { Vec::new() };
+		mine_salted(&mut w, txs.clone(), 7);
+		mine_salted(&mut t, txs, 7);
+		if w.chain.tip_hash() != t.chain.tip_hash() {
+			return Err("twin chain diverged".into());
+		}
+		let what = format!("second fork, block {}", i + 1);
+		// batching styles are told every third block and at the end
+		let sync_now = !c.style.batches() && c.style != SyncStyle::ConfirmUnconfirmOnlySkipping || i % 3 == 2 || i + 1 == horizon;
+		step_sync(&mut t, ftxid, &mut ready_t, &mut problems, &format!("twin, {}", what));
+		if sync_now {
+			step_sync(&mut w, ftxid, &mut ready_a, &mut problems, &what);
+			let (a, b) = (funding_view(&w), funding_view(&t));
+			comparisons += 1;
+			if a != b || ready_a != ready_t {
+				problems.push((
+					"reorg-not-retracted".to_string(),
+					format!("{}: a client that saw the funding confirm in a fork of depth {} which was then reorganised away concludes\n  {} (ChannelReady events: {})\nwhile one that only saw the final chain concludes\n  {} (ChannelReady events: {})", what, c.confs, a, ready_a, b, ready_t),
+				));
+				break;
+			}
+		}
+	}
+	if c.reconfirms {
+		crate::runner::witness("c11-funding-reconfirmed-after-reorg");
+	} else {
+		crate::runner::witness("c11-funding-gone-after-reorg");
+	}
+	Ok((problems, comparisons))
+}
+
+pub fn funding_reorg_cases(tier: Tier) -> Vec<FundingReorgCase> {
+	let mut v = Vec::new();
+	let th = tier.is_thorough();
+	for style in SyncStyle::all() {
+		for confs in if th { vec![1u32, 2, 3, 4, 5] } else { vec![1u32, 3, 5] } {
+			for delay in if th { vec![0u32, 1, 2, 3] } else { vec![0u32, 2] } {
+				v.push(FundingReorgCase { style, confs, delay, reconfirms: true });
+			}
+			v.push(FundingReorgCase { style, confs, delay: 0, reconfirms: false });
+		}
+	}
+	v
 }
 
 /// Re-runs one script named in a violation's replay file.
